@@ -17,6 +17,7 @@ def edge_trees():
         _t("E_default_cond", Cfg("X", B, "x"), Cfg("Y", I, "y", defaults=[("7", "X"), ("1", None)]), Cfg("W", B, None, defaults=[("y", "X")])),
         _t("E_default_order", Cfg("X", B, "x", defaults=[("y", None)]), Cfg("Y", B, "y", defaults=[("n", "X"), ("y", None)]), Cfg("YI", I, "yi", defaults=[("0", "X"), ("5", None)]), Cfg("Z", I, "z", depends=["Y"], defaults=[("3", None)])),
         _t("E_default_val", Cfg("X", I, "x", defaults=[("4", None)]), Cfg("Y", I, "y", defaults=[("X", None)]), Cfg("YS", S, "ys", defaults=[("X", None)])),
+        _t("E_default_val_fwd", Cfg("Y", I, "y", defaults=[("X", None)]), Cfg("YS", S, "ys", defaults=[("XS", None)]), Cfg("X", I, "x", defaults=[("4", None)]), Cfg("XS", S, "xs", defaults=[('"a"', None)])),
         _t("E_default_bool", Cfg("X", B, "x"), G, Cfg("Y", B, "y", defaults=[("X", "G"), ("y", None)])),
         _t("E_range_bound", Cfg("X", I, "x", defaults=[("4", None)]), Cfg("Y", I, "y", ranges=[("X", "100", None)], defaults=[("1", None)]), Cfg("YH", I, "yh", ranges=[("0", "X", None)], defaults=[("50", None)])),
         _t("E_range_bound_dep", Cfg("G", B, "g", defaults=[("y", None)]), Cfg("X", I, "x", depends=["G"], defaults=[("8", None)]), Cfg("Y", I, "y", ranges=[("0", "X", None)], defaults=[("5", None)]), Cfg("XH", H, "xh", depends=["G"], defaults=[("0x20", None)]), Cfg("YH", H, "yh", ranges=[("0x0", "XH", None)], defaults=[("0x5", None)])),
